@@ -400,7 +400,7 @@ Goal Proofs.C10_KTGrammarTok.c10k_ident_ok (lit "app_core") = true /\
     = Ok Proofs.C10_KTGrammarMulti.kgm_text /\
   c10_kt_recognise Proofs.C10_KTGrammarMulti.kgm_text = Some 7%nat /\
   contains_sub (lit "package com.agilebits.onepassword.app_core") Proofs.C10_KTGrammarMulti.kgm_text = true /\
-  contains_sub (lit "import com.agilebits.onepassword.lib_crate.Node") Proofs.C10_KTGrammarMulti.kgm_text = true /\
+  contains_sub (lit "import com.agilebits.onepassword.lib_crate.OPNode") Proofs.C10_KTGrammarMulti.kgm_text = true /\
   c10_kt_recognise (lit "package com.p.3d_tools" ++ nl) = None /\
   c10_kt_recognise (lit "package com.p.lib" ++ nl ++ lit "import com.p.lib-crate.Item" ++ nl) = None.
 Proof. exact Props.C10.C10_grammar_kotlin_multi_witness. Qed.
